@@ -188,7 +188,9 @@ class StudentT(Likelihood):
         return _standard_t(self.noise_std_inv(self.data - primals), self.dof)
 
     def metric(self, primals, tangents):
-        return self.noise_cov_inv((self.dof + 1) / (self.dof + 3) * tangents)
+        return self.noise_std_inv(
+            (self.dof + 1) / (self.dof + 3) * self.noise_std_inv(tangents)
+        )
 
     def left_sqrt_metric(self, primals, tangents):
         return self.noise_std_inv(((self.dof + 1) / (self.dof + 3)) ** 0.5 * tangents)
@@ -197,7 +199,7 @@ class StudentT(Likelihood):
         return self.left_sqrt_metric(None, self.data - primals)
 
     def transformation(self, primals):
-        return self.noise_std_inv(((self.dof + 1) / (self.dof + 3)) ** 0.5 * primals)
+        return ((self.dof + 1) / (self.dof + 3)) ** 0.5 * self.noise_std_inv(primals)
 
 
 class Poissonian(Likelihood):
